@@ -1,19 +1,31 @@
 //! C02: the confirmed tick is truthful.
 use crate::{
+    cells,
     check::{CellPlan, Tier, plan},
-    repl::{Env, Oracles, ReplCell},
+    repl::{Env, Oracles},
     sim::*,
 };
 
 pub fn cells(tier: Tier) -> Vec<CellPlan> {
+    let o = Oracles { c02: true, ..Default::default() };
+    let q = tier.quick();
     let mut v = Vec::new();
-    let mut c = super::c01::base("c02-mut-1c", "C02");
-    c.alphabet = vec![Op::Nop, Op::Mut(0, TA), Op::Mut(0, TB), Op::Rm(0, TB), Op::Ins(0, TB)];
-    c.rounds = if tier.quick() { 3 } else { 4 };
-    c.oracles = Oracles { c02: true, ..Default::default() };
-    c.env = Env::full();
-    v.push(plan(c, 2, 1.0));
+    let mut add = |mut c: crate::repl::ReplCell, dev_q: u32, dev_t: u32, rounds_q: usize, rounds_t: usize, w: f64| {
+        c.oracles = o.clone();
+        c.rounds = if q { rounds_q } else { rounds_t };
+        v.push(plan(c, if q { dev_q } else { dev_t }, w));
+    };
+    let mut m = cells::mutations("C02");
+    m.env = Env::full();
+    add(m, 2, 3, 3, 4, 3.0);
+    add(cells::single("C02"), 1, 2, 3, 4, 2.0);
+    add(cells::two("C02"), 1, 2, 3, 4, 2.0);
+    add(cells::refs("C02"), 1, 2, 3, 4, 1.0);
+    add(cells::hierarchy("C02"), 1, 2, 3, 4, 1.0);
+    add(cells::visibility("C02", Vis::Blacklist, 1), 1, 2, 3, 4, 1.0);
+    add(cells::visibility("C02", Vis::Whitelist, 1), 1, 2, 3, 4, 1.0);
+    add(cells::two_clients("C02"), 1, 2, 3, 3, 2.0);
     v
 }
 
-pub const RULE: &str = "histories over a mutation-heavy alphabet x network schedules with <= d deviations (mutate messages held, newest-only, oldest-only, reversed; updates and acks held); oracle after every client frame; non-trivial = at least one mutate message delivered to a client";
+pub const RULE: &str = "histories over mutation-heavy and structural alphabets x network schedules with <= d deviations (mutate messages held, newest-only, oldest-only, reversed; updates and acks held); oracle after every client frame; non-trivial = at least one mutate message delivered to a client";
